@@ -47,6 +47,14 @@ def cases(tier, rng, run):
             out.append(Case(c2.ctx_line(), "ctx", {"group": (gi, "ctx"), "ctx": c2}))
             if gi % 3 == 0:
                 out.append(Case(c2.call_line("func", ["pos", "kw", "kwonly", "posonly"][gi % 4], omit=(gi // 4) % 3), "call", {"group": (gi, "call"), "ctx": c2}))
+    # the exhaustive re-binding and named-group families (conflicts of every kind, reported through every error path) under every
+    # assignment of libraries to their arrays
+    for c in gen_ctx.rebinding_contexts() + gen_ctx.group_contexts():
+        k = sum(1 for p in c.params for s in p.slots if s.value[0] == "T")
+        gi += 1
+        for libs in itertools.product([0, 1, 2], repeat=k):
+            c2 = relib(c, libs)
+            out.append(Case(c2.ctx_line(), "ctx", {"group": (gi, "ctx"), "ctx": c2}))
     return out
 
 
